@@ -187,6 +187,13 @@ func c11Hostile(t *testing.T, kind, when int) (desc string) {
 		stopc := make(chan struct{})
 		done := make(chan struct{})
 		go func() { s.Maintenance(50*time.Second, c11Path, stopc, nil); close(done) }()
+		stopped := false
+		defer func() {
+			if !stopped {
+				close(stopc)
+				<-done
+			}
+		}()
 		ctx := context.Background()
 		now := time.Now()
 		mk := func(v string) *pb.Silence {
@@ -231,6 +238,7 @@ func c11Hostile(t *testing.T, kind, when int) (desc string) {
 			time.Sleep(51 * time.Second)
 		}
 		time.Sleep(time.Second)
+		stopped = true
 		close(stopc)
 		<-done
 		want := c11Dump(s)
